@@ -290,8 +290,11 @@ SIZES = {
 
 
 def build_stream(ctx, tier, corpus):
-    """list of (family, [cases in run order]); the quick list of a family is a
-    prefix of its thorough list (one seeded permutation per family)"""
+    """list of (family, [cases in run order]).  The thorough list of a family
+    does NOT depend on the seed (one fixed permutation, cut at the size that
+    has been soaked on the unchanged tree); the seed selects the quick
+    sub-sample of it and the order.  quick is a subset of thorough for every
+    seed."""
     fams = []
     det = {
         'form': c06gen.statement_forms(),
@@ -302,23 +305,20 @@ def build_stream(ctx, tier, corpus):
     }
     det['block3'] = [c for c in c06gen.block_keywords(3) if c['fam'] == 'block3']
     space = {}
+    full = {}
     for name in ('form', 'form-token', 'block-skel', 'block', 'block3', 'expr'):
         lst = det[name]
         space[name] = len(lst)
-        rng = random.Random(f'{ctx.seed}/{name}')
-        rng.shuffle(lst)
-        q, t = SIZES[name]
-        n = q if tier == 'quick' else (len(lst) if t is None else t)
-        fams.append((name, lst[:n]))
-    # grammar-directed programs with random type errors: program i of seed s
-    q, t = SIZES['prog']
-    n = q if tier == 'quick' else t
+        random.Random(f'0/{name}').shuffle(lst)
+        t = SIZES[name][1]
+        full[name] = lst if t is None else lst[:t]
+    # grammar-directed programs with random type errors: program i
     progs = []
-    for i in range(n):
-        g = c06gen.ProgGen(random.Random(f'{ctx.seed}/prog/{i}'), 0.04 + 0.04 * (i % 4))
+    for i in range(SIZES['prog'][1]):
+        g = c06gen.ProgGen(random.Random(f'0/prog/{i}'), 0.04 + 0.04 * (i % 4))
         progs.append({'fam': 'prog', 'cls': f'perr={0.04 + 0.04 * (i % 4):.2f}', 'src': g.program()})
-    fams.append(('prog', progs))
-    space['prog'] = 'unbounded (seeded)'
+    full['prog'] = progs
+    space['prog'] = 'unbounded (generator)'
     # token-level single mutations of the corpus
     toks = [c06gen.tokenize(c['src']) for c in corpus]
     allm = []
@@ -326,14 +326,21 @@ def build_stream(ctx, tier, corpus):
         for m in c06gen.mutation_space(tk):
             allm.append((ci, m))
     space['corpus'] = len(allm)
-    random.Random(f'{ctx.seed}/corpus').shuffle(allm)
-    q, t = SIZES['corpus']
-    n = q if tier == 'quick' else t
-    cm = []
-    for ci, m in allm[:n]:
-        cm.append({'fam': 'corpus', 'cls': f'{corpus[ci]["file"]}/{m[0]}',
-                   'src': c06gen.apply_mutation(toks[ci], m)})
-    fams.append(('corpus', cm))
+    random.Random('0/corpus').shuffle(allm)
+    full['corpus'] = [{'fam': 'corpus', 'cls': f'{corpus[ci]["file"]}/{m[0]}',
+                       'src': c06gen.apply_mutation(toks[ci], m)}
+                      for ci, m in allm[:SIZES['corpus'][1]]]
+    for name in ('form', 'form-token', 'block-skel', 'block', 'block3', 'expr', 'prog', 'corpus'):
+        lst = full[name]
+        rng = random.Random(f'{ctx.seed}/{name}')
+        if tier == 'quick':
+            q = min(SIZES[name][0], len(lst))
+            idx = sorted(rng.sample(range(len(lst)), q)) if ctx.seed else list(range(q))
+            lst = [lst[i] for i in idx]
+        elif ctx.seed:
+            lst = list(lst)
+            rng.shuffle(lst)
+        fams.append((name, lst))
     return fams, space
 
 
